@@ -280,7 +280,7 @@ fn not_a_word(u: &mut crate::gen::U) -> String {
     for _ in 0..20 {
         let base = bip39::word(u.below(2048) as u16).to_string();
         let mut chars: Vec<char> = base.chars().collect();
-        let cand = match u.below(9) {
+        let cand = match u.below(11) {
             0 => {
                 let i = u.below(chars.len());
                 chars.remove(i);
@@ -301,6 +301,53 @@ fn not_a_word(u: &mut crate::gen::U) -> String {
             5 => format!("{base}{}", ["s", "x", "1", "-", ".", ","][u.below(6)]),
             6 => ["0", "12", "2047", "-", "_", "0x1f", "\u{e9}", "abandon,", "\"abandon\""][u.below(9)].to_string(),
             7 => format!("{base}{base}"),
+            8 | 9 => {
+                // a list word with one character replaced by a compatibility / confusable form, or with an
+                // invisible character inserted: still not a word of the list
+                let i = u.below(chars.len());
+                let c = chars[i];
+                let mut s: String = chars[..i].iter().collect();
+                match u.below(8) {
+                    0 => s.push(char::from_u32(0xff41 + (c as u32 - 'a' as u32)).unwrap_or(c)), // full-width
+                    1 => {
+                        s.push(c);
+                        s.push(['\u{301}', '\u{308}', '\u{323}'][u.below(3)]); // combining mark
+                    }
+                    2 => s.push(char::from_u32(0x1d41a + (c as u32 - 'a' as u32)).unwrap_or(c)), // mathematical bold
+                    3 => s.push(match c {
+                        'a' => '\u{430}',
+                        'e' => '\u{435}',
+                        'o' => '\u{43e}',
+                        'p' => '\u{440}',
+                        'c' => '\u{441}',
+                        'x' => '\u{445}',
+                        'i' => '\u{456}',
+                        _ => '\u{3b1}',
+                    }), // Cyrillic / Greek look-alike
+                    4 => {
+                        s.push(c);
+                        s.push(['\u{200b}', '\u{200d}', '\u{ad}', '\u{feff}', '\u{2060}'][u.below(5)]); // invisible
+                    }
+                    5 => s.push(char::from_u32(0x24d0 + (c as u32 - 'a' as u32)).unwrap_or(c)), // circled
+                    6 => s.push(match c {
+                        's' => '\u{17f}',
+                        'k' => '\u{212a}',
+                        _ => char::from_u32(0x1d552 + (c as u32 - 'a' as u32)).unwrap_or(c),
+                    }), // long s, Kelvin sign, double-struck
+                    _ => {
+                        // ligature for "fi"/"fl"/"ff" if the word has one, else superscript-like modifier letter
+                        let rest: String = chars[i..].iter().collect();
+                        if rest.starts_with("fi") {
+                            s.push('\u{fb01}');
+                            s.push_str(&rest[2..]);
+                            return s;
+                        }
+                        s.push(char::from_u32(0x1d43 + (c as u32 - 'a' as u32) % 10).unwrap_or(c));
+                    }
+                }
+                s.extend(chars[i + 1..].iter());
+                s
+            }
             _ => format!("{}{}", (b'a' + u.below(26) as u8) as char, base),
         };
         if !cand.is_empty()
@@ -383,6 +430,19 @@ pub fn run(ctx: &mut Ctx) {
     let t = ctx.tier;
 
     ctx.run_prop("valid", t.pick(40_000, 500_000), valid_strategy, judge_case);
+
+    // phrases made of the longest / shortest words (text length extremes: 24 words up to ~215 bytes)
+    let mut extremes = vec![];
+    for len in bip39::LENGTHS {
+        for long in [true, false] {
+            for k in 0..t.pick(10, 100) {
+                let mut p = Prng::new(ctx.sub_seed("extremes", (len * 1000 + k) as u64 * 2 + u64::from(long)));
+                let e = bip39::entropy_with_word_lengths(len, long, |n| p.below(n as u64) as usize);
+                extremes.push(PhraseCase { phrase: bip39::encode_phrase(&e) });
+            }
+        }
+    }
+    ctx.run_cases("valid", &extremes, judge_case);
 
     // (b)
     let mut cells = vec![];
